@@ -221,7 +221,16 @@ def check_stale(ctx):
                           "resolve_value returns the generation the value was resolved from (`source`)", b.where(o))
 
 
+def check_successor(ctx):
+    """an extent may be retired (marked, released, reused) only when no generation still reads through it: deferred TTL
+    generations borrow the bytes of the last durable one, so the retirement licence must walk through superseded-unwritten
+    generations up to a durable / deleted one (shared with C02.successor)"""
+    from rules import C02
+    C02.check_successor(ctx, "C08.successor")
+
+
 def check(ctx):
+    check_successor(ctx)
     check_pin(ctx)
     check_retire(ctx)
     check_publish(ctx)
